@@ -59,6 +59,24 @@ def main():
     json.dump(out, sys.stdout)
 
 
+SEED_POOL = ['1', '2', '3', '4', '5', '6', '7', '11', '101', '777', '4242', '12345', '99991', '31337', '65537', '271828']
+
+
+def seeds_for(case, k):
+    """k distinct PYTHONHASHSEED values for the pristine children of this case, derived from the case itself
+    (so a replay uses the same ones); over many cases the whole pool is used - an order that depends on the
+    hash of one particular string shows only under some seeds."""
+    import hashlib
+    h = int(hashlib.md5(json.dumps(case, sort_keys=True, default=str).encode()).hexdigest(), 16)
+    out = []
+    while len(out) < k:
+        s = SEED_POOL[h % len(SEED_POOL)]
+        h //= len(SEED_POOL)
+        if s not in out:
+            out.append(s)
+    return out
+
+
 def run_jobs(jobs, hashseed='0', env_extra=None, timeout=300):
     """Called from the checks: runs the jobs in a pristine child."""
     import subprocess
